@@ -1,6 +1,7 @@
 """C10: applying build_diff(old, new) to old yields new."""
 from __future__ import annotations
 
+import collections
 import copy
 import itertools
 
@@ -356,6 +357,10 @@ def edit_ops(cfg):
             n, N.node_b if n.__fn_or_cls__ is N.node else N.node))))
     ops.append((f'b{bi}.retarget-to-narrower-callable', lambda c, g=get: _do(
         g(c), _retarget)))
+    ops.append((f'b{bi}.to-annotated-callable-without-its-tag',
+                lambda c, g=get: _do(g(c), _to_annotated_untagged)))
+    ops.append((f'b{bi}.containers-to-subclass-instances',
+                lambda c, g=get: _do(g(c), _to_subclass_instances)))
     ops.append((f'b{bi}.add-tag', lambda c, g=get: _do(
         g(c), lambda n: fdl.add_tag(n, _named(n)[0], N.TagC))))
     ops.append((f'b{bi}.remove-base-tag', lambda c, g=get: _do(
@@ -404,6 +409,31 @@ def _retarget(n):
     raise LookupError('not applicable')
   fdl.clear_tags(n, 'y')
   fdl.update_callable(n, N.only_x, drop_invalid_args=True)
+
+
+def _to_annotated_untagged(n):
+  """Switches to a callable whose parameter has an annotation tag; the new
+  configuration does not carry that tag."""
+  if n.__fn_or_cls__ not in (N.node, N.node_b):
+    raise LookupError('not applicable')
+  fdl.update_callable(n, N.node_tagged)
+  fdl.clear_tags(n, 'x')
+
+
+def _to_subclass_instances(n):
+  """Replaces container arguments by equal instances of a subclass of their
+  type (dict -> OrderedDict, 2-tuple -> named tuple)."""
+  done = False
+  for k, v in list(n.__arguments__.items()):
+    if type(v) is dict and all(isinstance(e, (str, int)) for e in v.values()):
+      # (an OrderedDict is an opaque leaf for daglish: only with leaf values)
+      n.__arguments__[k] = collections.OrderedDict(v)
+      done = True
+    elif type(v) is tuple and len(v) == 2:
+      n.__arguments__[k] = N.Pair(*v)
+      done = True
+  if not done:
+    raise LookupError('not applicable')
 
 
 def _new_shared(n):
